@@ -4,10 +4,10 @@
   argument vector.
 
   * unfolding lemmas for `runP` / `runNamed` / `runOneOf`;
-  * `hasStringsN`, `NoStringsN` and "no `StringsN` → no panic";
+  * no combinator, no loop and no grammar ever panics (since the repair of D11: `parser.StringsN`
+    refuses a negative count with `ErrInvalidArgNum`); `hasStringsN` says where `StringsN` occurs;
   * the footprint of a combinator (`EnvStep`): which slots it may write, and that every `int` it
-    stores was read by `strconv.Atoi` from one of the arguments; from that: a panic needs an
-    argument that is a negative integer literal;
+    stores was read by `strconv.Atoi` from one of the arguments;
   * `equalFold` is invariant under ASCII case changes of either side; `Flag`, `Named` and `OneOf`
     of those look at the head argument only through `equalFold`;
   * the positional prefix of a grammar.
@@ -278,44 +278,28 @@ def hasUnknownL : List P → Bool
   | p :: ps => hasUnknown p || hasUnknownL ps
 end
 
-/-- the grammar does not use `parser.StringsN` -/
-def NoStringsN (g : Grammar) : Prop := hasStringsNL g.parsers = false
-
-instance (g : Grammar) : Decidable (NoStringsN g) := by unfold NoStringsN; infer_instance
-
-theorem hasStringsNL_eraseIdx (ps : List P) (i : Nat) (h : hasStringsNL ps = false) :
-    hasStringsNL (ps.eraseIdx i) = false := by
-  induction ps generalizing i with
-  | nil => simpa using h
-  | cons p ps ih =>
-    simp only [hasStringsNL, Bool.or_eq_false_iff] at h
-    cases i with
-    | zero => simpa using h.2
-    | succ i => simp [hasStringsNL, h.1, ih i h.2]
-
-/-! ### A.1 no `StringsN`, no panic -/
+/-! ### A.1 nothing panics -/
 
 def stepIsPanic : Step → Bool
   | .panic => true
   | _ => false
 
 mutual
-theorem runP_noPanic (p : P) (args : List Bytes) (env : Env) (h : hasStringsN p = false) :
+/-- no combinator panics, on any arguments, in any environment -/
+theorem runP_noPanic (p : P) (args : List Bytes) (env : Env) :
     stepIsPanic (runP p args env) = false := by
   cases p with
   | named name ps =>
-    simp only [hasStringsN] at h
     rw [runP_named]
     split
     · rfl
     · split
       · rfl
-      · exact runNamed_noPanic ps _ _ _ _ h
+      · exact runNamed_noPanic ps _ _ _ _
   | oneOf ps =>
-    simp only [hasStringsN] at h
     rw [runP_oneOf]
-    exact runOneOf_noPanic ps _ _ _ h
-  | stringsN _ _ => simp [hasStringsN] at h
+    exact runOneOf_noPanic ps _ _ _
+  | stringsN _ _ => cases args <;> simp only [runP] <;> (try split) <;> rfl
   | string _ => cases args <;> simp [runP, stepIsPanic]
   | bytes _ => cases args <;> simp [runP, stepIsPanic]
   | int _ => cases args <;> simp only [runP] <;> (try split) <;> rfl
@@ -327,35 +311,39 @@ theorem runP_noPanic (p : P) (args : List Bytes) (env : Env) (h : hasStringsN p 
   | floatMap _ => simp only [runP]; split <;> (try split) <;> rfl
   | flag _ _ => rw [runP_flag]; split <;> (try split) <;> rfl
   | unknown _ => simp [runP, stepIsPanic]
-theorem runNamed_noPanic (ps : List P) (args : List Bytes) (env : Env) (n t : Nat)
-    (h : hasStringsNL ps = false) : stepIsPanic (runNamed ps args env n t) = false := by
+theorem runNamed_noPanic (ps : List P) (args : List Bytes) (env : Env) (n t : Nat) :
+    stepIsPanic (runNamed ps args env n t) = false := by
   cases ps with
   | nil => rw [runNamed_nil]; split <;> rfl
   | cons p ps =>
-    simp only [hasStringsNL, Bool.or_eq_false_iff] at h
     rw [runNamed_cons]
-    have hp := runP_noPanic p args env h.1
+    have hp := runP_noPanic p args env
     cases hr : runP p args env with
     | ret fired rest env' =>
       simp only []
       split
       · split <;> (try split) <;> rfl
-      · exact runNamed_noPanic ps _ _ _ _ h.2
+      · exact runNamed_noPanic ps _ _ _ _
     | panic => rw [hr] at hp; cases hp
     | _ => rfl
-theorem runOneOf_noPanic (ps : List P) (args : List Bytes) (env : Env) (n : Nat)
-    (h : hasStringsNL ps = false) : stepIsPanic (runOneOf ps args env n) = false := by
+theorem runOneOf_noPanic (ps : List P) (args : List Bytes) (env : Env) (n : Nat) :
+    stepIsPanic (runOneOf ps args env n) = false := by
   cases ps with
   | nil => rw [runOneOf_nil]; split <;> rfl
   | cons p ps =>
-    simp only [hasStringsNL, Bool.or_eq_false_iff] at h
     rw [runOneOf_cons]
-    have hp := runP_noPanic p args env h.1
+    have hp := runP_noPanic p args env
     cases hr : runP p args env with
-    | ret fired rest env' => exact runOneOf_noPanic ps _ _ _ h.2
+    | ret fired rest env' => exact runOneOf_noPanic ps _ _ _
     | panic => rw [hr] at hp; cases hp
     | _ => rfl
 end
+
+theorem runP_ne_panic (p : P) (args : List Bytes) (env : Env) : runP p args env ≠ .panic := by
+  intro e
+  have := runP_noPanic p args env
+  rw [e] at this
+  cases this
 
 def outcomeIsPanic : Outcome → Bool
   | .panic => true
@@ -365,17 +353,16 @@ def tryIsPanic : TryRes → Bool
   | .stop .panic => true
   | _ => false
 
-theorem tryAll_noPanic (ps : List P) (i : Nat) (args : List Bytes) (env : Env)
-    (h : hasStringsNL ps = false) : tryIsPanic (tryAll ps i args env) = false := by
+theorem tryAll_noPanic (ps : List P) (i : Nat) (args : List Bytes) (env : Env) :
+    tryIsPanic (tryAll ps i args env) = false := by
   induction ps generalizing i env with
   | nil => rfl
   | cons p ps ih =>
-    simp only [hasStringsNL, Bool.or_eq_false_iff] at h
-    have hp := runP_noPanic p args env h.1
+    have hp := runP_noPanic p args env
     rw [tryAll]
     split
     · rfl
-    · exact ih _ _ h.2
+    · exact ih _ _
     · rfl
     · next hpan => rw [hpan] at hp; cases hp
     · rfl
@@ -384,28 +371,35 @@ theorem tryAll_noPanic (ps : List P) (i : Nat) (args : List Bytes) (env : Env)
 theorem finish_noPanic (args : List Bytes) (env : Env) : outcomeIsPanic (finish args env) = false := by
   unfold finish; split <;> rfl
 
-theorem runLoop_noPanic (fuel : Nat) (ps : List P) (args : List Bytes) (env : Env)
-    (h : hasStringsNL ps = false) : outcomeIsPanic (runLoop fuel ps args env) = false := by
+theorem runLoop_noPanic (fuel : Nat) (ps : List P) (args : List Bytes) (env : Env) :
+    outcomeIsPanic (runLoop fuel ps args env) = false := by
   induction fuel generalizing ps args env with
   | zero => rw [runLoop]; exact finish_noPanic _ _
   | succ fuel ih =>
     rw [runLoop]
     split
     · exact finish_noPanic _ _
-    · have ht := tryAll_noPanic ps 0 args env h
+    · have ht := tryAll_noPanic ps 0 args env
       split
-      · exact ih _ _ _ (hasStringsNL_eraseIdx ps _ h)
+      · exact ih _ _ _
       · exact finish_noPanic _ _
       · next o hstop =>
         rw [hstop] at ht
         cases o <;> first | rfl | cases ht
 
-theorem runGrammar_noPanic (g : Grammar) (args : List Bytes) (h : NoStringsN g) :
+/-- `Pipeline.Run` never panics: any grammar, any arguments -/
+theorem runGrammar_noPanic (g : Grammar) (args : List Bytes) :
     outcomeIsPanic (runGrammar g args) = false := by
   unfold runGrammar
   split
   · rfl
-  · exact runLoop_noPanic _ _ _ _ h
+  · exact runLoop_noPanic _ _ _ _
+
+theorem runGrammar_ne_panic (g : Grammar) (args : List Bytes) : runGrammar g args ≠ .panic := by
+  intro e
+  have := runGrammar_noPanic g args
+  rw [e] at this
+  cases this
 
 /-! ### the footprint of a combinator -/
 
@@ -463,24 +457,6 @@ theorem EnvStep.frame {S : List String} {src : List Bytes} {env env' : Env}
     rw [getSlot_setSlot]
     have : ¬ s = k := fun e => hk (e ▸ hs)
     simp [this, ih]
-
-/-- every `int` in the environment was read from one of the arguments `src` -/
-def IntsFrom (src : List Bytes) (env : Env) : Prop :=
-  ∀ k i, getSlot env k = some (.int i) → ∃ a ∈ src, atoi a = some i
-
-theorem intsFrom_nil (src : List Bytes) : IntsFrom src [] := by
-  intro k i h; simp [getSlot] at h
-
-theorem EnvStep.intsFrom {S : List String} {src : List Bytes} {env env' : Env}
-    (h : EnvStep S src env env') (h0 : IntsFrom src env) : IntsFrom src env' := by
-  induction h with
-  | refl => exact h0
-  | set s v _ _ hv ih =>
-    intro k i hg
-    rw [getSlot_setSlot] at hg
-    split at hg
-    · exact hv i (Option.some.inj hg)
-    · exact ih k i hg
 
 /-- what a returning combinator did: it left a suffix of its input, assigned only its own slots,
 and when it did not fire it changed nothing -/
@@ -568,10 +544,8 @@ theorem leaf_foot (p : P) (hl : isLeaf p = true) (args : List Bytes) (env : Env)
       simp only [runP] at h
       split at h
       · cases h
-      · split at h
-        · cases h
-        · cases h
-          exact foot_set _ _ (List.drop_suffix _ _) (by simp [slotsOf]) (intOK_of_not_int (by simp))
+      · cases h
+        exact foot_set _ _ (List.drop_suffix _ _) (by simp [slotsOf]) (intOK_of_not_int (by simp))
   | anyMap s =>
     simp only [runP] at h
     split at h
@@ -778,21 +752,13 @@ theorem tryAll_fired_foot (ps : List P) (i : Nat) (args : List Bytes) (env : Env
   have hf := runP_foot p args env true rest env' hrun
   exact ⟨hf.1, hf.2.1.mono (mem_slotsOfL (List.mem_of_getElem? hp)) (fun _ h => h)⟩
 
-/-! ### A.1 a panic needs a negative integer literal among the arguments -/
+/-! ### A.1 `StringsN` refuses a negative count (D11, repaired) -/
 
-/-- some argument is, for `strconv.Atoi`, a negative integer -/
-def NegLit (src : List Bytes) : Prop := ∃ a ∈ src, ∃ i, atoi a = some i ∧ i < 0
-
-theorem getInt_neg {env : Env} {k : String} (h : getInt env k < 0) :
-    ∃ i, getSlot env k = some (.int i) ∧ i < 0 := by
-  unfold getInt at h
-  split at h
-  · next i hg => exact ⟨i, hg, h⟩
-  · omega
-
-/-- `parser.StringsN` panics exactly when something is left to parse and the count is negative -/
-theorem stringsN_panic_iff (slot nSlot : String) (args : List Bytes) (env : Env) :
-    runP (.stringsN slot nSlot) args env = .panic ↔ args ≠ [] ∧ getInt env nSlot < 0 := by
+/-- `parser.StringsN` answers `ErrInvalidArgNum` exactly when something is left to parse and the
+count parsed earlier is negative or larger than what is left (`n < 0 || len(args) < n`) -/
+theorem stringsN_fail_iff (slot nSlot : String) (args : List Bytes) (env : Env) (e : PErr) :
+    runP (.stringsN slot nSlot) args env = .fail e ↔
+      e = .invalidArgNum ∧ args ≠ [] ∧ (getInt env nSlot < 0 ∨ (args.length : Int) < getInt env nSlot) := by
   cases args with
   | nil => simp [runP]
   | cons a r =>
@@ -800,161 +766,24 @@ theorem stringsN_panic_iff (slot nSlot : String) (args : List Bytes) (env : Env)
     constructor
     · intro h
       split at h
+      · next hc =>
+        cases h
+        refine ⟨rfl, by simp, ?_⟩
+        simpa using hc
       · cases h
-      · split at h
-        · next hn => exact ⟨by simp, hn⟩
-        · cases h
-    · rintro ⟨_, hn⟩
-      have : ¬ (((a :: r).length : Int) < getInt env nSlot) := by
-        have : (0 : Int) ≤ ((a :: r).length : Int) := Int.natCast_nonneg _
-        omega
-      rw [if_neg this, if_pos hn]
+    · rintro ⟨rfl, _, hn⟩
+      have hc : (getInt env nSlot < 0 || ((a :: r).length : Int) < getInt env nSlot) = true := by
+        simpa using hn
+      rw [if_pos hc]
 
-theorem leaf_panic (p : P) (hl : isLeaf p = true) (args : List Bytes) (env : Env)
-    (h : runP p args env = .panic) : ∃ slot nSlot, p = .stringsN slot nSlot := by
-  have hs : hasStringsN p = true := by
-    cases hh : hasStringsN p with
-    | true => rfl
-    | false =>
-      have := runP_noPanic p args env hh
-      rw [h] at this
-      cases this
-  cases p <;> first
-    | exact ⟨_, _, rfl⟩
-    | (simp [hasStringsN] at hs; done)
-    | cases hl
-
-mutual
-theorem runP_panic (p : P) (args : List Bytes) (env : Env) (src : List Bytes)
-    (hsub : ∀ a ∈ args, a ∈ src) (hi : IntsFrom src env) (h : runP p args env = .panic) :
-    NegLit src := by
-  cases p with
-  | named name ps =>
-    rw [runP_named] at h
-    split at h
-    · cases h
-    · next a r =>
-      split at h
-      · cases h
-      · exact runNamed_panic ps r env 0 ps.length src (fun x hx => hsub x (by simp [hx])) hi h
-  | oneOf ps =>
-    rw [runP_oneOf] at h
-    exact runOneOf_panic ps args env 0 src hsub hi h
-  | stringsN s ns =>
-    obtain ⟨_, hn⟩ := (stringsN_panic_iff s ns args env).mp h
-    obtain ⟨i, hg, hneg⟩ := getInt_neg hn
-    obtain ⟨a, ha, hat⟩ := hi ns i hg
-    exact ⟨a, ha, i, hat, hneg⟩
-  | string s => obtain ⟨_, _, e⟩ := leaf_panic _ rfl _ _ h; cases e
-  | bytes s => obtain ⟨_, _, e⟩ := leaf_panic _ rfl _ _ h; cases e
-  | int s => obtain ⟨_, _, e⟩ := leaf_panic _ rfl _ _ h; cases e
-  | float s => obtain ⟨_, _, e⟩ := leaf_panic _ rfl _ _ h; cases e
-  | enum s al => obtain ⟨_, _, e⟩ := leaf_panic _ rfl _ _ h; cases e
-  | strings s => obtain ⟨_, _, e⟩ := leaf_panic _ rfl _ _ h; cases e
-  | anys s => obtain ⟨_, _, e⟩ := leaf_panic _ rfl _ _ h; cases e
-  | anyMap s => obtain ⟨_, _, e⟩ := leaf_panic _ rfl _ _ h; cases e
-  | floatMap s => obtain ⟨_, _, e⟩ := leaf_panic _ rfl _ _ h; cases e
-  | flag n s => obtain ⟨_, _, e⟩ := leaf_panic _ rfl _ _ h; cases e
-  | unknown t => obtain ⟨_, _, e⟩ := leaf_panic _ rfl _ _ h; cases e
-theorem runNamed_panic (ps : List P) (args : List Bytes) (env : Env) (n t : Nat) (src : List Bytes)
-    (hsub : ∀ a ∈ args, a ∈ src) (hi : IntsFrom src env) (h : runNamed ps args env n t = .panic) :
-    NegLit src := by
-  cases ps with
-  | nil => rw [runNamed_nil] at h; split at h <;> cases h
-  | cons p ps =>
-    rw [runNamed_cons] at h
-    cases hr : runP p args env with
-    | ret f1 rest1 env1 =>
-      rw [hr] at h
-      simp only [] at h
-      have h1 := runP_foot p args env f1 rest1 env1 hr
-      by_cases he : rest1.isEmpty = true
-      · rw [if_pos he] at h
-        by_cases hc : ((if f1 = true then n + 1 else n) != t) = true
-        · rw [if_pos hc] at h; cases h
-        · rw [if_neg hc] at h; cases h
-      · rw [if_neg he] at h
-        refine runNamed_panic ps rest1 env1 _ t src (fun x hx => hsub x (h1.1.subset hx)) ?_ h
-        exact (h1.2.1.mono (fun _ h => h) hsub).intsFrom hi
-    | panic => exact runP_panic p args env src hsub hi hr
-    | fail e => rw [hr] at h; cases h
-    | outOfDomain => rw [hr] at h; cases h
-    | unsupported t => rw [hr] at h; cases h
-theorem runOneOf_panic (ps : List P) (args : List Bytes) (env : Env) (n : Nat) (src : List Bytes)
-    (hsub : ∀ a ∈ args, a ∈ src) (hi : IntsFrom src env) (h : runOneOf ps args env n = .panic) :
-    NegLit src := by
-  cases ps with
-  | nil => rw [runOneOf_nil] at h; split at h <;> cases h
-  | cons p ps =>
-    rw [runOneOf_cons] at h
-    cases hr : runP p args env with
-    | ret f1 rest1 env1 =>
-      rw [hr] at h
-      simp only [] at h
-      have h1 := runP_foot p args env f1 rest1 env1 hr
-      refine runOneOf_panic ps rest1 env1 _ src (fun x hx => hsub x (h1.1.subset hx)) ?_ h
-      exact (h1.2.1.mono (fun _ h => h) hsub).intsFrom hi
-    | panic => exact runP_panic p args env src hsub hi hr
-    | fail e => rw [hr] at h; cases h
-    | outOfDomain => rw [hr] at h; cases h
-    | unsupported t => rw [hr] at h; cases h
-end
-
-theorem tryAll_panic (ps : List P) (i : Nat) (args : List Bytes) (env : Env) (src : List Bytes)
-    (hsub : ∀ a ∈ args, a ∈ src) (hi : IntsFrom src env) (h : tryAll ps i args env = .stop .panic) :
-    NegLit src := by
-  induction ps generalizing i with
-  | nil => rw [tryAll] at h; cases h
-  | cons p ps ih =>
-    rw [tryAll_cons] at h
-    cases hr : runP p args env with
-    | ret f1 rest1 env1 =>
-      rw [hr] at h
-      cases f1 with
-      | true => simp only [] at h; cases h
-      | false =>
-        simp only [] at h
-        obtain ⟨_, e2⟩ := runP_unfired hr
-        subst e2
-        exact ih (i + 1) h
-    | panic => exact runP_panic p args env src hsub hi hr
-    | fail e => rw [hr] at h; cases h
-    | outOfDomain => rw [hr] at h; cases h
-    | unsupported t => rw [hr] at h; cases h
+/-- a negative count is refused, not a panic -/
+theorem stringsN_negative_refused (slot nSlot : String) (args : List Bytes) (env : Env)
+    (hne : args ≠ []) (hn : getInt env nSlot < 0) :
+    runP (.stringsN slot nSlot) args env = .fail .invalidArgNum :=
+  (stringsN_fail_iff slot nSlot args env .invalidArgNum).mpr ⟨rfl, hne, .inl hn⟩
 
 theorem finish_ne_panic (args : List Bytes) (env : Env) : finish args env ≠ .panic := by
   unfold finish; split <;> simp
-
-theorem runLoop_panic (fuel : Nat) (ps : List P) (args : List Bytes) (env : Env) (src : List Bytes)
-    (hsub : ∀ a ∈ args, a ∈ src) (hi : IntsFrom src env) (h : runLoop fuel ps args env = .panic) :
-    NegLit src := by
-  induction fuel generalizing ps args env with
-  | zero => rw [runLoop] at h; exact absurd h (finish_ne_panic _ _)
-  | succ fuel ih =>
-    rw [runLoop] at h
-    split at h
-    · exact absurd h (finish_ne_panic _ _)
-    · cases ht : tryAll ps 0 args env with
-      | fired j rest env' =>
-        rw [ht] at h
-        simp only [] at h
-        obtain ⟨hsuf, hstep⟩ := tryAll_fired_foot ps 0 args env j rest env' ht
-        exact ih _ rest env' (fun x hx => hsub x (hsuf.subset hx))
-          ((hstep.mono (fun _ h => h) hsub).intsFrom hi) h
-      | noneFired => rw [ht] at h; exact absurd h (finish_ne_panic _ _)
-      | stop o =>
-        rw [ht] at h
-        simp only [] at h
-        subst h
-        exact tryAll_panic ps 0 args env src hsub hi ht
-
-/-- `Pipeline.Run` can only panic on a request that carries a negative integer literal -/
-theorem runGrammar_panic (g : Grammar) (args : List Bytes) (h : runGrammar g args = .panic) :
-    NegLit args := by
-  unfold runGrammar at h
-  split at h
-  · cases h
-  · exact runLoop_panic _ _ args [] args (fun _ h => h) (intsFrom_nil _) h
 
 /-! ### A.2 `Flag`, `Named` and `OneOf` of them see the head argument only through `equalFold` -/
 
